@@ -65,6 +65,15 @@ class Check(ParCheck):
         return out
 
     def stress(self, tier, seed, rep):
+        # N concurrent requests for one single-use composite value (one lock per owned leaf): exactly one gets position 1, whole —
+        # all schedules of C12's leaf race, judged here too
+        try:
+            from .c12 import Check as C12
+            c12 = C12(); c12.prop = self.prop
+            c12.leaf_race(rep, tier)
+        except Exception as e:
+            path = engine.write_replay(self.prop, 'toolerror', repr(e), ["leaf-race exploration failed"])
+            rep.violation(path, f"leaf-race exploration failed: {e!r}"[:300], no_input=True)
         reps = 2000 if tier == 'quick' else 60000
         tree = tup([term(1, 'each', Pat(mask=255, chain=[seg('ret1', 'n1000'), seg('ret2', '-')])), term(5, 'some', Pat(mask=255, chain=[seg('ret3', 'al1')]))])
         text = par_scenario('stress', 'strict', tree, [[(1, 0), (5, 0)]] * 16)
